@@ -533,14 +533,32 @@ bool pv_gen_exact_length(pv_rng* r, const pv_mlang* L, unsigned coin, long targe
             if (need_lo < lo) need_lo = lo;
             if (need_hi > hi) need_hi = hi;
             if (need_lo > need_hi) { ok = false; break; }
-            /* a random admissible word whose length is inside the feasible window */
+            /* stay near the average that the rest of the phrase needs, so that the last two words (of which the check
+             * word cannot be chosen freely) are left with an ordinary length and not an extreme one */
+            { long avg = rem / (left + 1), dl = (hi - lo) / 4 + 3;
+              if (avg - dl > need_lo) need_lo = avg - dl;
+              if (avg + dl < need_hi) need_hi = avg + dl;
+              if (need_lo > need_hi) { need_lo = need_hi = avg; } }
+            /* a random admissible word whose length is inside the feasible window (bucketed by length, so that windows
+             * that only the few longest or shortest words satisfy are hit as well) */
             unsigned pick = 0; bool found = false;
-            for (int t = 0; t < 200 && !found; ++t) {
-                unsigned i = pv_randn(r, PV_NWORDS);
-                if (L->len[i] < need_lo || L->len[i] > need_hi) continue;
-                if (k == 2 && (i & 1)) continue;
-                if (k >= 3 && k <= 5 && (i & 1) && !(enabled & (1u << (5 - k)))) continue;
-                pick = i; found = true;
+            {
+                static unsigned short* bucket[PV_MAXLANG][128]; static int bn[PV_MAXLANG][128]; static bool built[PV_MAXLANG];
+                int li = (int)(L - pv_langs);
+                if (!built[li]) {
+                    for (unsigned i = 0; i < PV_NWORDS; ++i) { int ln = L->len[i] < 127 ? L->len[i] : 127; bn[li][ln]++; }
+                    for (int ln = 0; ln < 128; ++ln) { bucket[li][ln] = bn[li][ln] ? pv_xmalloc((size_t)bn[li][ln] * sizeof(unsigned short)) : NULL; bn[li][ln] = 0; }
+                    for (unsigned i = 0; i < PV_NWORDS; ++i) { int ln = L->len[i] < 127 ? L->len[i] : 127; bucket[li][ln][bn[li][ln]++] = (unsigned short)i; }
+                    built[li] = true;
+                }
+                long total = 0; for (long ln = need_lo; ln <= need_hi && ln < 128; ++ln) total += bn[li][ln];
+                for (int t = 0; t < 40 && !found && total > 0; ++t) {
+                    long pos = (long)pv_randn(r, (uint32_t)total); unsigned i = 0;
+                    for (long ln = need_lo; ln <= need_hi && ln < 128; ++ln) { if (pos < bn[li][ln]) { i = bucket[li][ln][pos]; break; } pos -= bn[li][ln]; }
+                    if (k == 2 && (i & 1)) continue;
+                    if (k >= 3 && k <= 5 && (i & 1) && !(enabled & (1u << (5 - k)))) continue;
+                    pick = i; found = true;
+                }
             }
             if (!found) { ok = false; break; }
             c[k] = pick; rem -= L->len[pick];
